@@ -112,6 +112,8 @@ def run(ctx: common.Ctx):
     ctx.lean_obligations("PtProofs.C02", THEOREMS)
     from .c01 import THEOREMS_KERNEL
     ctx.lean_obligations("PtProofs.C01", THEOREMS_KERNEL)
+    from .c01 import THEOREMS_GEN
+    ctx.lean_obligations("PtProofs.C01GenChecks", THEOREMS_GEN)
     nprog = 600 if ctx.thorough else 90
     nvar = 6 if ctx.thorough else 3
     nprng = np.random.default_rng(ctx.seed * 17 + 7)
@@ -239,6 +241,18 @@ def run(ctx: common.Ctx):
                           "(single assignment / dependency completeness)", {"program_index": i, "variant": vn,
                                                                             "seed": ctx.seed})
     ctx.note_batch("kernel-readback+checkKernel-of-all-variants", kn, kdis, exhaustive=False)
+    # the Lean model of the statement generator on every tag variant (ImplStored / Named / PrefixNamed /
+    # ImplSubstitution / ImplInlined decide what is stored and how it is named)
+    from . import c01_gen
+
+    class _P:      # cases_from_results reads .index and .expr()
+        def __init__(self, i, vn, pv):
+            self.index, self._pv = f"{i}:{vn}", pv
+
+        def expr(self):
+            return self._pv.expr()
+    c01_gen.run_gen_model(ctx, "tags", list(c01_gen.cases_from_results(
+        [(_P(i, vn, pv), runs) for (i, vn, pv, runs, base) in meta], results, _prep_dedup)))
     ctx.coverage["executor_unsupported"] = unsupported
     ctx.note_batch("tag-variants-vs-untagged-vs-reference", len(jobs), dis, exhaustive=False,
                    programs=nprog, variants_per_program=nvar + 1, tag_kinds_applied=allstats)
